@@ -1,12 +1,12 @@
 """C12 - buffered data stays bounded (REDUCED SCOPE: invariants, no heap measurement).
 
- * UncompressedFile::dropOldData: pops the front container iff it lies wholly behind tellg, tellp and the declared end
-   (C15 job, relabelled); each transfer function calls it once per transferred unit (file_common jobs);
+ * UncompressedFile::dropOldData: drops exactly the leading containers that lie wholly behind tellg, tellp and the
+   declared end and leaves none of them held - also when one object spans several containers (C15 job, relabelled); each transfer function calls it once per transferred unit (file_common jobs);
  * back-pressure: the two append operations wait until buffered bytes < threshold (predicates = spec), the queue's
    producer waits at capacity; lemma: right after an append that was admitted, buffered < threshold + appended;
  * File(): threshold = one container, queue capacity 10.
 Together: held <= threshold + a constant number of containers, independent of the file length.
-NOT decided: the actual peak heap; objects larger than a container.
+NOT decided inside the check: the actual peak heap (native demonstration: seeded/C12_3/demo.cpp).
 """
 import sys, os
 sys.path.insert(0, os.path.dirname(os.path.dirname(os.path.abspath(__file__))))
@@ -53,5 +53,5 @@ def extra(info):
 
 if __name__ == '__main__':
     core.main_wrapper(lambda: file_common.run_property('C12', extra_jobs=extra, assumptions=[
-        'REDUCED SCOPE: the peak live heap is not measured; the bound follows from the invariants under the precondition object size <= container size',
-        'objects spanning several containers leave already-consumed containers until later drops (one pop per transferred unit): outside the invariant, documented limitation']))
+        'REDUCED SCOPE: the peak live heap is not measured by the check; the bound (threshold + the largest request + a constant number of containers) follows from the invariants',
+        'the composition of the per-function obligations into the bound is an argument on paper (DESIGN.md 6/C12)']))
